@@ -16,7 +16,8 @@ import re
 
 import core
 
-PROOF_MODULES = ["UnytProofs.C14", "UnytProofs.Lemmas.C14", "UnytProofs.Lemmas.C14Rows"]
+PROOF_MODULES = ["UnytProofs.C14", "UnytProofs.Lemmas.C14", "UnytProofs.Lemmas.C14Rows", "UnytProofs.C14History",
+                 "UnytProofs.Lemmas.C14History"]
 
 # SI brochure, 9th ed., table 7 (unyt has no ronna/quetta/ronto/quecto); three spellings of micro
 SYM = {"Y": 24, "Z": 21, "E": 18, "P": 15, "T": 12, "G": 9, "M": 6, "k": 3, "h": 2, "da": 1, "d": -1, "c": -2,
@@ -313,13 +314,24 @@ def run(tier, seed):
         correspond(chk, model, tier, rng, reader, names, extra_strings, us_attrs, top_attrs, ns, reg, plugin)
     except Exception as e:  # noqa: BLE001
         chk.disagree("driver", repr(e)[:400])
+    # ------------------------------------------------------------------ registries with a history
+    try:
+        import c14_history
+
+        c14_history.run(chk, core.Model("drv_c14"), tier, rng, names, reader)
+    except Exception as e:  # noqa: BLE001
+        import traceback
+
+        chk.disagree("history-driver", traceback.format_exc()[-600:])
 
     chk.extra["names_listed"] = len(names)
     chk.extra["top_level_shadowed"] = sorted(k for k in us_attrs if k not in top_attrs)
     chk.extra["strings_with_several_readings"] = [s for s in multi][:40]
     rule = ("exhaustive: every key of inv_name_alternatives on the string route and on the three attribute routes; every prefix symbol, prefix word "
             "and title-cased prefix word x every spelling of every non-prefixable and prefixable unit; every such string with more than one reading; "
-            "model correspondence on all of these plus seeded mutations of names; distinct = distinct (route, string)")
+            "model correspondence on all of these plus seeded mutations of names; seeded random histories (look-ups by string/alias/getitem, add, remove, "
+            "modify, JSON and pickle round trips) of custom registries that keep returning to one prefix+unit split, each compared with the user's own "
+            "table, with a registry that received the edits only, and with the model's state machine; distinct = distinct (route, string) / history")
     return chk.finish(rule)
 
 
